@@ -803,3 +803,19 @@ func checkNoVarArgForwarding(args ast.Args) error {
 	}
 	return nil
 }
+
+// programAddrSpace returns the program address space of the data layout of the
+// module (the `P<n>` specification): the address space of functions, and of
+// the callees of call and invoke, when none is written (callbr takes no address
+// space in LLVM 14 and its callee is in address space 0). It is 0 when
+// the data layout does not specify one.
+func (gen *generator) programAddrSpace() types.AddrSpace {
+	for _, spec := range strings.Split(gen.m.DataLayout, "-") {
+		if len(spec) > 1 && spec[0] == 'P' {
+			if n, err := strconv.ParseUint(spec[1:], 10, 24); err == nil {
+				return types.AddrSpace(n)
+			}
+		}
+	}
+	return 0
+}
